@@ -1,7 +1,7 @@
 \* quick tier: the intended design, smaller budget; (no finding enabled): every property must hold
 SPECIFICATION MCSpec
 CONSTANTS
-  Stores = {"s1", "s2"}
+  Stores = {"s1"}
   Txns = {"t1", "t2"}
   Findings = {}
   NoR = 0
